@@ -46,6 +46,11 @@ type Interp struct {
 	urlQueries map[*Value]*Map
 	renderInts, renderJSON, renderQuote bool
 	seenFns map[*ssa.Function]bool
+	pools    map[*Value][]Value
+	syncMaps map[*Value]*Map
+	onces    map[*Value]bool
+	decoders map[*Value]*decState
+	encoders map[*Value]Iface
 }
 
 // fnInfo numbers the SSA values of a function so that frames can use a slice.
